@@ -48,7 +48,7 @@ def run(ctx):
     xvlib.EXTRA_ALL[0] = '--reuse'
     try:
         ajobs = []
-        for r in (['hp3', 'lfrc'] if q else ['hp3', 'he3', 'lfrc', 'hp1', 'ebr0']):
+        for r in (['hp3', 'lfrc'] if q else ['hp3', 'he3', 'lfrc', 'ebr0', 'stamp']):
             for ins in ('goe3', 'gol3', 'idx3', 'emp3', 'eog3'):
                 for kind in ('map1nc', 'map1mh'):
                     ajobs.append('%s/%s;emp1,emp5;%s;era5,emp2' % (kind, r, ins))
